@@ -239,11 +239,23 @@ def negative_control(prop, res, module="Trace_EngineRel", view="all"):
         raise core.ToolError(f"negative control not rejected where expected: {r.get('reject_at')} vs {target - s + 1}")
 
 
+# targeted histories for recorded (not repaired) defects: the check keeps exercising them
+KNOWN_SCRIPTS = {
+    "C12": [
+        {"gid": "kf:rollback-over-forced-id-token", "mode": "C12", "seed": 1, "steps": 0,
+         "gram": {"kind": "lark", "text": 'start: "a" <[120]> "b"\n'},
+         "cfgs": [{"vocab": vocabs.byte(0), "vid": 0, "slices": []}], "w": {},
+         "script": [["consume", 97], ["ffb", 0], ["consume", 120], ["rollback", 1], ["mask", 0], ["ffb", 0], ["fresh", 0]]},
+    ],
+}
+
+
 def check_rel(prop, tier, seed, n_quick, n_thorough, grammars=None, rule="", **kw):
     res = core.Result(prop, tier, seed)
     n = n_quick if tier == "quick" else n_thorough
     grammars = grammars or corpus.all_grammars()
     job = build_job(prop, tier, seed, n, grammars, **kw)
+    job["episodes"] = KNOWN_SCRIPTS.get(prop, []) + job["episodes"]
     rejects = drive_and_validate(prop, tier, seed, job, res, nshards=8 if tier == "quick" else 16)
     for rj in rejects:
         res.violation(signature(rj), rj["replay"])
@@ -360,7 +372,11 @@ def check_threads(tier, seed):
                                  "distinct_states": u1["distinct"]})
     rng = random.Random(f"C14-{seed}")
     gs = corpus.all_grammars() + random_cfg_grammars(seed, 20)
-    n = 70 if q else 2500
+    # clones that took different branches but sit in the same lexer state / row index are the interesting families
+    branchy = [g for g in gs if g[0].startswith("shared_lexeme") or g[0] in ("keywords", "alt_prefixes", "kw_id", "arith",
+                                                                              "hand:sibling_lexemes", "doc_toolcall")]
+    gs = gs + branchy * 4
+    n = 110 if q else 2500
     eps = []
     for i in range(n):
         name, g = gs[(i + seed * 7) % len(gs)] if i < len(gs) else rng.choice(gs)
